@@ -5,7 +5,7 @@
    injected at callback invocations and destructors. *)
 From Coq Require Import ZArith List Bool Lia.
 From MV Require Import Ast Eval Scalar Machine Model Policy.
-From MV.Proofs Require Import Arith Logic Prim View OpsLocal Guards Grow Drops CapHistory Core DrainIt Refine.
+From MV.Proofs Require Import Arith Logic Prim View OpsLocal Guards Grow Drops CapHistory Core DrainIt Refine FilterIt.
 Import ListNotations.
 Open Scope Z_scope.
 
@@ -129,3 +129,24 @@ Theorem C04_refused_insert_changes_nothing :
     (fun s' => vabs cfg s' v l /\ ledger s' e = Dropped /\ only_changes s s' [e]).
 Proof. exact insert_abs. Qed.
 Print Assumptions C04_truncate_under_panicking_destructors.
+
+(* Drop for DrainFilter from ANY point, ANY predicate script: the vector is the kept elements
+   followed -- only when the predicate panics -- by the untested rest; exactly the elements accepted
+   from here on are destroyed, once; it returns iff the predicate does not panic; after a predicate
+   panic seen by next() only the guard runs.  (Destructors of accepted elements assumed not to panic.) *)
+Theorem C04_drain_filter_drop_any_point_any_script :
+  forall cfg, cfg_ok cfg -> needs_drop cfg = true ->
+  forall s f b orig kept,
+  finv cfg s f b orig kept -> NoDup orig ->
+  let rest := skipn (Z.to_nat (f_pos f)) orig in
+  if f_panicked f then
+    post (filter_drop cfg f s) (fun _ s' => filter_done cfg s s' f b (kept ++ rest) []) (fun _ => False)
+  else
+    let '(k, y, u, p) := fall_spec rest (f_pred f) in
+    (forall e, In e y -> mem e (drop_panics s) = false) ->
+    post (filter_drop cfg f s)
+      (fun _ s' => p = false /\ filter_done cfg s s' f b (kept ++ k ++ u) y)
+      (fun s' => p = true /\ filter_done cfg s s' f b (kept ++ k ++ u) y).
+Proof. exact filter_drop_spec. Qed.
+
+Print Assumptions C04_drain_filter_drop_any_point_any_script.
